@@ -150,7 +150,7 @@ fn c03_eq_determinacy() {
 
 // ------------------------------------------------------------------------------------------ check / pin
 
-// @ob id=O3.1 props=C03 also=C18,C07 tier=quick kind=proof gen=king qsel=8 unwind=30 weight=light stubs=geom fn="Board::update_pin_info" desc="for the fixed king square and EVERY placement satisfying the occupancy invariant: afterwards checkers = exactly the enemy men attacking the king and pinned = exactly the lone men between the king and an aligned enemy slider (eight ray walks from the king, first and second blocker), nothing else changes; table accessors replaced by the closed forms that O16.1/3/4/5 prove equal to them on the real tables; loop unwinding assertion on (complete for the case)"
+// @ob id=O3.1 props=C03,C06 also=C18,C07 tier=quick kind=proof gen=king qsel=8 unwind=30 weight=light stubs=geom fn="Board::update_pin_info" desc="for the fixed king square and EVERY placement satisfying the occupancy invariant: afterwards checkers = exactly the enemy men attacking the king and pinned = exactly the lone men between the king and an aligned enemy slider (eight ray walks from the king, first and second blocker), nothing else changes; table accessors replaced by the closed forms that O16.1/3/4/5 prove equal to them on the real tables; loop unwinding assertion on (complete for the case)"
 fn c03_update_pin_info(kc: usize, ksq: u8) {
     let mut b = any_board_king(kc, ksq);
     kani::assume(b.side_to_move.to_index() == kc);
@@ -372,7 +372,7 @@ pub(crate) fn pre_move_king(kc: usize, ksq: u8) -> (Board, sp::Pos, ChessMove, s
     (b, pos, m, mv)
 }
 
-// @ob id=O2.1b props=C02,C03 tier=quick kind=proof gen=king qsel=4 unwind=30 weight=light stubs=geom fn="Board::make_move_new" desc="opponent king fixed on the instance square: for every placement and rule-obeying move, the incrementally computed checkers/pinned of the result equal the from-scratch eight-ray-walk spec of the result position (C03: check and pin information matches the position after every move)"
+// @ob id=O2.1b props=C02,C03,C04 tier=quick kind=proof gen=king qsel=4 unwind=30 weight=light stubs=geom fn="Board::make_move_new" desc="opponent king fixed on the instance square: for every placement and rule-obeying move, the incrementally computed checkers/pinned of the result equal the from-scratch eight-ray-walk spec of the result position (C03: check and pin information matches the position after every move)"
 fn c02_mmn_checkpin(kc: usize, ksq: u8) {
     let (b, _pos, m, _mv) = pre_move_king(kc, ksq);
     let r = b.make_move_new(m);
@@ -592,6 +592,21 @@ fn c09_single_component() {
         kani::assume(fa != fb);
         b.en_passant = e;
     }
+    assert!(a.get_hash() != b.get_hash());
+}
+
+// @ob id=O9.3 props=C09 tier=quick kind=proof fn="Board::get_hash" desc="the non-placement part of the position as a whole is separated: two boards with the same incremental hash field that differ in ANY way in (side to move, white rights, black rights, en-passant file or none) — one component or several at once — hash differently, on the real key tables (all 288 x 288 combinations)"
+#[kani::proof]
+fn c09_state_components_injective() {
+    let a = any_raw_board();
+    let mut b = a;
+    b.side_to_move = any_color();
+    b.castle_rights = [any_rights(), any_rights()];
+    b.en_passant = any_ep();
+    // en-passant squares are compared by file (the only part the position identity and the hash use)
+    let fa = a.en_passant.map(|s| s.get_file().to_index());
+    let fb = b.en_passant.map(|s| s.get_file().to_index());
+    kani::assume(a.side_to_move != b.side_to_move || a.castle_rights[0] != b.castle_rights[0] || a.castle_rights[1] != b.castle_rights[1] || fa != fb);
     assert!(a.get_hash() != b.get_hash());
 }
 
